@@ -164,7 +164,8 @@ def setup_fp(name, state, other):
 
 
 def name_case(task):
-    so, sn, kind, split, threads = task
+    so, sn, kind, split, threads = task[:5]
+    dot = len(task) > 5 and task[5]   # the set-up patch is a -p0 entry whose names are spelled ./name
     d = wsweep.wdir()
     root = os.path.join(d, 'ws')
     files = {'keep': (b'k\n', 0o644)}
@@ -208,8 +209,10 @@ def name_case(task):
             model[target] = b''   # both names given: the file is emptied, not removed
     patches, series = {}, []
     if p0:
+        if dot:
+            p0 = p0.replace(b' a/', b' ./').replace(b' b/', b' ./')
         patches['p0.patch'] = p0
-        series.append('p0.patch')
+        series.append('p0.patch -p0' if dot else 'p0.patch')
     patches['p1.patch'] = p1
     series.append('p1.patch')
     ws.make_ws(root, files, patches, series)
@@ -220,7 +223,7 @@ def name_case(task):
     snap = ws.snapshot(root)
     got = {k: v[0] for k, v in ws.tree_of(snap).items()}
     out = {'evals': 1, 'violations': [], 'outcomes': {'target=%s:%s' % (target, 'applies' if ok else 'fails'): 1}, 'nontrivial': 1}
-    tags = wsweep.cls({'old:' + so, 'new:' + sn, kind, 'split' if split else 'one-push', 'threads>1' if threads > 1 else 'threads=1'})
+    tags = wsweep.cls({'old:' + so, 'new:' + sn, kind, 'split' if split else 'one-push', 'threads>1' if threads > 1 else 'threads=1'} | ({'set-up-patch-spelled-dot-slash'} if dot else set()))
     w = lambda extra: dict({'kind': 'cli', 'files': {k: [common.b2s(v[0]), v[1]] for k, v in files.items()}, 'patches': {k: common.b2s(v) for k, v in patches.items()}, 'series': series,
                             'before': [{'args': ['1', '-q', '--backup', 'never'], 'threads': threads}] if (split and p0) else [], 'args': ['-a', '-q', '--backup', 'never'], 'threads': threads,
                             'series_desc': 'old name %s, new name %s, %s' % (so, sn, kind)}, **extra)
@@ -273,6 +276,9 @@ def run(tier, seed):
     res.coverage['strip_and_choice_corners']['rule'] = ('names with "." or "//" among or behind the components -pN removes (counted as written, like patch); an old (or new) name with fewer components than N; an old name that is a '
                                                        'directory: %d cases x with/without -d x threads {1,2}; decoy files at every place a miscount would land; exactly the stated file changes') % len(STRIP_CORNERS)
     tasks2 = [(so, sn, kind, split, threads) for so in STATES for sn in STATES for kind in ('modify', 'create', 'delete') for split in (False, True) for threads in (1, 2)]
+    # the same matrix with the set-up patch at -p0 and its names spelled ./o and ./n: "as left by earlier patches of the same run" whatever they called the file
+    tasks2 += [(so, sn, kind, False, threads, True) for so in STATES for sn in STATES for kind in ('modify', 'create', 'delete') for threads in (1, 2)
+               if so in ('created-earlier', 'deleted-earlier', 'renamed-away') or sn in ('created-earlier', 'deleted-earlier', 'renamed-away')]
     acc2 = wsweep.Acc(res)
     for i, r in enumerate(wsweep.pmap(name_case, tasks2)):
         if i % 59 == 0:
